@@ -414,7 +414,24 @@ impl Interp {
                     _ => q / 50,
                 };
                 let m = if idx(*margin, 16) >= 9 && idx(*margin, 16) <= 13 { m } else { m + jitter(*margin, d) };
-                let m = m.max(1);
+                let mut m = m.max(1);
+                // boundary class: an order against the trader's own position whose notional is within a few raw units
+                // of the position's current value (the reduce / exactly-flat / reverse-with-dust-remainder boundary)
+                let mut forced_lev: Option<u128> = None;
+                if (*margin as u32 + *lev as u32) % 5 == 0 {
+                    if let Some(p) = &pre.pos[v][t] {
+                        let long = !p.size.is_negative();
+                        if !p.size.is_zero() && long != *buy {
+                            if let Some(pn) = self.output_amount(v, p.direction.clone(), p.size.value.u128()) {
+                                let offs: [i128; 9] = [0, -1, 1, -2, 2, 3, -3, 10, -10];
+                                let off = offs[(*margin as usize / 5) % offs.len()];
+                                let target = (pn as i128 + off).max(1) as u128;
+                                m = target;
+                                forced_lev = Some(d);
+                            }
+                        }
+                    }
+                }
                 let imr = pre.ecfg.initial_margin_ratio.u128();
                 let max_lev = if imr == 0 { 100 * d } else { mul_div_floor(d, d, imr) };
                 let l = match idx(*lev, 14) {
@@ -433,6 +450,7 @@ impl Interp {
                     12 => d + jitter(*lev, max_lev.saturating_sub(d).max(1)),
                     _ => (4 * d).min(max_lev),
                 };
+                let l = forced_lev.unwrap_or(l);
                 let notional = mul_div_floor(m, l, d);
                 let lim = match limit {
                     0 | 1 => 0,
@@ -1035,7 +1053,11 @@ pub fn run_history(case: &HistCase, mon: &mut dyn Monitor, ctx: &Ctx, out: &mut 
             out.count(&format!("effect.{:?}", effect));
         }
         if ctx.want_summary {
-            trace.push(json!({"i": i, "act": act_json(&act), "ok": res.ok, "err": res.err, "effect": format!("{:?}", effect)}));
+            let subj = act.subject().map(|(v, t)| {
+                let f = |p: &Option<Position>| p.as_ref().map(|p| format!("size {} margin {} notional {} L {} blk {}", p.size, p.margin, p.notional, p.last_updated_premium_fraction, p.block_number));
+                json!({"before": f(&pre.pos[v][t]), "after": f(&post.pos[v][t])})
+            });
+            trace.push(json!({"i": i, "act": act_json(&act), "ok": res.ok, "err": res.err, "effect": format!("{:?}", effect), "position": subj}));
         }
         let step = Step {
             i,
